@@ -129,6 +129,10 @@ func numberValue(lit string, rng *rand.Rand, canonical bool) any {
 	case "nfrac":
 		return pick(2.5, float32(2.5), json.Number("2.5"))
 	case "nexp":
+		if !canonical {
+			// (the default tokenizer lower-cases: an upper-case exponent in raw JSON is the same token)
+			return pick(1e21, json.RawMessage("1e+21"), json.RawMessage("1E+21"))
+		}
 		return pick(1e21, json.RawMessage("1e+21"))
 	}
 	if strings.HasPrefix(lit, "i") {
